@@ -32,11 +32,11 @@ func c15wants(id string, b core.Batch) bool {
 	case "C14":
 		return b.Race
 	case "C19":
-		return strings.HasPrefix(n, "latest") || n == "shutdown" || n == "set-p0" || n == "policy"
+		return strings.HasPrefix(n, "latest") || n == "shutdown" || n == "set-p0" || n == "policy" || n == "firstuse" || n == "unsub-during-fire-race"
 	case "C20":
 		return n == "sessions" || n == "routes"
 	case "C11":
-		return n == "expiry" || n == "burst" || n == "wire"
+		return n == "expiry" || n == "burst" || n == "wire" || n == "cakinds"
 	case "C06", "C03":
 		return strings.Contains(n, "memory") && !strings.Contains(n, "func")
 	}
